@@ -883,3 +883,20 @@ def m0_js():
         m.method("Js", "rt_%s" % sd.name.lower(), None, [("s", StructT(sd.name))], StructT(sd.name))
     m.method("Js", "new", None, [], OpaqueBox("Js"))
     return m
+
+
+def js_random_module(seed, idx):
+    """random structs (primitive / enum / nested / optional fields) taken and returned by value, for the JS back end"""
+    base = random_module(seed, idx)
+    m = Module("mjs_%d_%d" % (seed, idx))
+    for d in base.order:
+        if isinstance(d, EnumDef):
+            m.add(d)
+    for d in base.order:
+        if isinstance(d, StructDef) and not d.out:
+            m.add(d)
+    m.add(OpaqueDef("Js"))
+    for sd in list(m.structs.values()):
+        m.method("Js", "rt_%s" % sd.name.lower(), None, [("s", StructT(sd.name))], StructT(sd.name))
+    m.method("Js", "new", None, [], OpaqueBox("Js"))
+    return m
